@@ -268,7 +268,7 @@ func c17Id(n string) *c17Node {
 	}
 	return &c17Node{K: "id", S: n, T: t}
 }
-func c17Int(v int) *c17Node   { return &c17Node{K: "int", S: fmt.Sprint(v), T: c17TInt} }
+func c17Int(v int) *c17Node { return &c17Node{K: "int", S: fmt.Sprint(v), T: c17TInt} }
 func c17Str(s string) *c17Node {
 	return &c17Node{K: "str", S: s, T: c17TStr}
 }
@@ -1136,9 +1136,9 @@ func c17Each(n ast.Node, f func(ast.Node)) {
 
 type c17Corr struct {
 	typesDefs map[string]string       // env kind -> Coq ttable term
-	seenTypes map[reflect.Type]bool    // node types met
-	ifaces    map[reflect.Type]bool    // interface parameter types of the environment's functions
-	typeNames map[string]reflect.Type  // serialised -> type (injectivity check)
+	seenTypes map[reflect.Type]bool   // node types met
+	ifaces    map[reflect.Type]bool   // interface parameter types of the environment's functions
+	typeNames map[string]reflect.Type // serialised -> type (injectivity check)
 }
 
 func newC17Corr() *c17Corr {
